@@ -200,6 +200,17 @@ func gen(r *Rng, tier string, emit Emit) {
 					subs = append(subs, sub{f, v})
 				}
 			}
+			// truncation aliases of the valid value: every field, every alias
+			ak := 0
+			for _, f := range s.fields {
+				if f.off < 0 || f.off+f.w > len(s.b) {
+					continue
+				}
+				for _, v := range aliasValues(f, getField(s.b, f)) {
+					run(s, substitute(s.b, f, v), ak%4 == 0 || thorough)
+					ak++
+				}
+			}
 			for k := 0; k < budgetS && len(subs) > 0; k++ {
 				i := sr.Intn(len(subs))
 				x := subs[i]
@@ -266,6 +277,22 @@ func gen(r *Rng, tier string, emit Emit) {
 			f := real.fields[br.Intn(len(real.fields))]
 			vs := boundaryValues(len(real.b), f, getField(real.b, f))
 			emit("P", "p_total_amd_firmware", encodeInput(real, substitute(real.b, f, vs[br.Intn(len(vs))])))
+		}
+		// truncation aliases of the directory pointers (level-2 PSP 0x40, level-2 BIOS 0x70) and,
+		// budget permitting, of the other 64-bit locations
+		n := 0
+		for _, f := range real.fields {
+			if f.w != 8 || f.off < 8 {
+				continue
+			}
+			typ := real.b[f.off-8]
+			if typ != 0x40 && typ != 0x70 && n >= bigCases*4 {
+				continue
+			}
+			for _, v := range aliasValues(f, getField(real.b, f))[:3] {
+				emit("P", "p_total_amd_firmware", encodeInput(real, substitute(real.b, f, v)))
+				n++
+			}
 		}
 	}
 	if rom, err := os.ReadFile(filepath.Join(repoPath(), "pkg/cbfs/testdata/coreboot.rom")); err == nil {
